@@ -218,6 +218,9 @@ def conditions(tier):
     return cs
 
 
+# validate() compares the real implementation with the property itself
+VALIDATION_CHECKS_PROPERTY = True
+
 ASSUMPTIONS = [
     'entry lines are drawn from valid DATA/IGNORE shapes (field-level parsing is C09)',
     'a whitespace-only line ends the armor headers (as gpg, which trims trailing blanks)',
